@@ -238,6 +238,38 @@ def can_need_filing(f):
             return True       # the base class: no decision at all
         except Exception:     # noqa
             continue
+    # the decision may compare two lines with each other: every assignment of a few values to the keys it reads
+    import itertools
+
+    class W(dict):
+        def __init__(self, asg, seen):
+            self.asg, self.seen = asg, seen
+
+        def __getitem__(self, k):
+            if k not in self.seen:
+                self.seen.append(k)
+            return self.asg.get(k, 0.0)
+
+        def __contains__(self, k):
+            return True
+
+        def get(self, k, d=None):
+            return self[k]
+    seen = []
+    try:
+        f.needs_filing(W({}, seen))
+    except Exception:     # noqa
+        pass
+    for _round in range(3):                      # keys read only on some branches show up in later rounds
+        keys = list(seen)[:5]
+        for combo in itertools.product((0.0, 1000.0, True, False), repeat=len(keys)):
+            try:
+                if f.needs_filing(W(dict(zip(keys, combo)), seen)):
+                    return True
+            except Exception:     # noqa
+                continue
+        if len(seen) == len(keys):
+            break
     return False
 
 
